@@ -34,11 +34,21 @@ theorem tie_no_fault (hsh : ∀ k, sh k < n) (hr : (lts cfg n sh).Reach s) : s.f
   kl_no_fault tie_cfg_proved hsh hr
 
 theorem tie_group_order (hsh : ∀ k, sh k < n) (keys : List Key) :
-    (acqOrder cfg n sh keys).Pairwise (fun a b => sh a ≤ sh b) :=
-  (group_order_consistent tie_cfg_proved hsh keys).1
+    (acqOrder cfg n sh keys).Pairwise (fun a b => srank cfg n (sh a) ≤ srank cfg n (sh b)) :=
+  (group_order_consistent cfg hsh keys).1
+
+theorem tie_independent (hsh : ∀ k, sh k < n) (hr : (lts cfg n sh).Reach s)
+    {t : Tid} {m : Mode} {all : List Key} {k : Key} {o : ObjId} {rest : List (Key × ObjId)}
+    (hph : (s.th t).phase = .acq m all ((k, o) :: rest))
+    (hfree : ∀ u, u ≠ t → ∀ o' m', (k, o', m') ∈ refs (s.th u) → m = .r ∧ m' = .r) : ¬ blockedT s t :=
+  kl_independent tie_cfg_proved hsh hr hph hfree
 
 theorem tie_deadlock_free (hsh : ∀ k, sh k < n) {rank : Key → Nat} (hr : ReachOrd cfg n sh rank s)
     (hbusy : ∃ t, (s.th t).phase ≠ .idle) : ∃ a s', isProgress a ∧ step cfg n sh s a = some s' :=
   kl_deadlock_free tie_cfg_proved hsh hr hbusy
+
+theorem tie_deadlock_free_flat (hsh : ∀ k, sh k < n) {G : Key → Nat} {B : Nat} (hr : ReachFlat cfg n sh G B s)
+    (hbusy : ∃ t, (s.th t).phase ≠ .idle) : ∃ a s', isProgress a ∧ step cfg n sh s a = some s' :=
+  kl_deadlock_free_flat tie_cfg_proved hsh hr hbusy
 
 end Nv.C02
